@@ -37,6 +37,8 @@ def gen_str(rng):
 
 UNITS = ['gram', 'milligram', 'millimolar', 'nanometer', 'nanomolar / second', 'femtogram / micrometer ** 3',
          'second', '1 / second']
+# offset units: a quantity in them is Quantity(magnitude, unit), not a product (F23)
+OFFSET_UNITS = ['degree_Celsius', 'degree_Fahrenheit']
 
 
 def gen_leaf(rng):
@@ -58,7 +60,7 @@ def gen_leaf(rng):
     if k < 0.85:
         mag = rng.choice([['int', rng.choice([0, 1, -3, 5, 1000])], ['float', gen_float(rng).hex()],
                           ['float', float('nan').hex()], ['float', (1e-300).hex()], ['float', (1e300).hex()]])
-        return ['qty', mag, rng.choice(UNITS)]
+        return ['qty', mag, rng.choice(UNITS + OFFSET_UNITS) if rng.random() < 0.3 else rng.choice(UNITS)]
     if k < 0.89:
         return ['unit', rng.choice(UNITS[:7])]
     if k < 0.92:
@@ -166,7 +168,7 @@ def build(v):
         return a
     if t == 'qty':
         mag = build(v[1])
-        return mag * units(v[2])
+        return units.Quantity(mag, v[2]) if v[2] in OFFSET_UNITS else mag * units(v[2])
     if t == 'unit':
         return units(v[1]).units
     if t == 'proc':
@@ -336,9 +338,21 @@ def canon_table(bodies):
         try:
             if b == 'nan' or b.startswith('nan '):
                 key = 'nan ' + b[3:].lstrip()
-                tab.append((key, str(units('1' + b[3:]).units)))
+                try:
+                    tab.append((key, str(units('1' + b[3:]).units)))
+                except Exception as e:
+                    if type(e).__name__ != 'OffsetUnitCalculusError':
+                        raise
+                    tab.append((key, str(units.Quantity(1, b[3:].strip()).units)))
             else:
-                q = units(b)
+                try:
+                    q = units(b)
+                except Exception as e:
+                    if type(e).__name__ != 'OffsetUnitCalculusError':
+                        raise
+                    # what the text denotes: the quantity of that magnitude in that (offset) unit
+                    m, _, u = b.partition(' ')
+                    q = units.Quantity(float(m) if any(ch in m for ch in '.en') else int(m), u)
                 tab.append((b, str(q)))
                 if str(q) != b and re.match(r'[-+0-9.]|inf', b):       # a printed quantity (units alone parse to 1 * unit)
                     LEAF_PREMISE_FAILURES.append((b, str(q)))
